@@ -96,7 +96,8 @@ PrefixLines(first, cont, blankp, lines, lazy) ==
      ELSE Ln(cont \o lines[k].s, lines[k].lz)]
 ParaLines(ls) == [k \in 1..Len(ls) |-> Ln(ls[k], k > 1)]
 Plain(ls) == [k \in 1..Len(ls) |-> Ln(ls[k], FALSE)]
-Digits(n) == CASE n = 1 -> "1" [] n = 7 -> "7" [] n = 12 -> "12"
+Digit(d) == CASE d = 0 -> "0" [] d = 1 -> "1" [] d = 2 -> "2" [] d = 3 -> "3" [] d = 4 -> "4" [] d = 5 -> "5" [] d = 6 -> "6" [] d = 7 -> "7" [] d = 8 -> "8" [] d = 9 -> "9"
+Digits(n) == IF n < 10 THEN Digit(n) ELSE Digit(n \div 10) \o Digit(n % 10)
 
 RECURSIVE Ser(_, _, _, _), SerSeq(_, _, _, _, _, _), SerItems(_, _, _, _, _, _)
 \* inList: the block stands inside a list item (thematic breaks must then not look like list markers)
